@@ -41,7 +41,7 @@ def build(ctx):
 def run_harness(ctx, exe, tag, first, n, extra_env=None, timeout=1500):
     d = os.path.join(ctx.scratch, "w_" + tag); os.makedirs(d, exist_ok=True)
     cases, impl, stats = [os.path.join(d, x) for x in ("cases.txt", "impl.txt", "stats.json")]
-    env = {"ASAN_OPTIONS": "detect_leaks=1:abort_on_error=0", "LSAN_OPTIONS": "print_suppressions=0"}
+    env = {"ASAN_OPTIONS": "detect_leaks=1:abort_on_error=0", "LSAN_OPTIONS": "print_suppressions=0:exitcode=0"}
     if extra_env: env.update(extra_env)
     rc, out, err = ctx.run([exe, cases, impl, stats, str(first), str(n), d], timeout=timeout, env=env)
     return rc, err, cases, impl, stats
@@ -161,7 +161,7 @@ def crash_signature(err, v):
 
 def run(ctx, only_seq=None):
     ctx.audit()
-    nseq = 10 if ctx.tier == "quick" else 90
+    nseq = 30 if ctx.tier == "quick" else 240
     exe, has_rk = build(ctx)
     if not exe:
         ctx.tie_ok = False; ctx.broken.append({"kind": "harness build failed"}); return
@@ -214,6 +214,10 @@ def run(ctx, only_seq=None):
             if len(ctx.coverage["samples"]) < 4 and len(v["rows"]) > 5:
                 c, i, m = v["rows"][len(v["rows"]) // 2]
                 ctx.coverage["samples"].append({"variant": v["head"], "op": c, "impl": i, "model": m})
+        if rc == 0 and "ERROR: LeakSanitizer" in err and not any(x.startswith("lsan:") for x in reported):
+            fn = [x for x in re.findall(r"#\d+ 0x[0-9a-f]+ in ([^\n(]+)", err) if not re.search(r"operator new|interceptor|malloc|allocate", x)]
+            sig = "lsan:" + (fn[0].strip().split("::")[-1] if fn else "unknown"); reported.add(sig)
+            ctx.report(sig, {"stderr": err[-3000:]}, "C20 oracle: LeakSanitizer at exit: memory obtained outside the counting allocator was never released: " + err[-700:])
         if rc == 0: break
         # the harness died (sanitizer abort, signal, timeout): a result, reported with the offending history
         crashes += 1
